@@ -36,13 +36,16 @@ def run(modname, fname, kwargs, trace=False):
     ok = fn(**kwargs)
   except rt.Discard:
     ok = True
+  except rt.HarnessError as e:
+    ok = None
+    err = 'HarnessError: %s' % e
   except Exception as e:  # a harness exception is a failing path, as in rt.guard
     import traceback
     ok = False
     err = ''.join(traceback.format_exception(type(e), e, e.__traceback__)[-8:])
   finally:
     sys.settrace(None)
-  return {'ok': bool(ok is True or (ok is not False and ok)), 'error': err,
+  return {'ok': None if ok is None else bool(ok is True or (ok is not False and ok)), 'error': err,
           'functions': sorted(seen)}
 
 
